@@ -12,3 +12,27 @@ package lsm
 //@   ensures [false-if-needed] result && lm != nil && lm.manifestMgr != nil ==> (forall gid uint64 :: has(ptrs, gid) ==> (ptrs[gid].Segment == 0 || id < ptrs[gid].Segment) && (ptrs[gid].SegmentIndex == 0 || math(id) < math(ptrs[gid].SegmentIndex)))
 //@   loop 1 invariant [seen-below] lm != nil && (forall gid uint64 :: seen(gid) ==> (ptrs[gid].Segment == 0 || id < ptrs[gid].Segment) && (ptrs[gid].SegmentIndex == 0 || math(id) < math(ptrs[gid].SegmentIndex)))
 //@   modifies nothing
+
+// C12: the version recovered at open is an upper bound of every source's largest version.
+//@ spec func tableMaxVersion(t *table) uint64
+
+//@ func (*table).MaxVersionVal
+//@   trusted
+//@   tag ghost-pure
+//@   ensures [abstract] result == tableMaxVersion(t)
+//@   modifies nothing
+
+// levelManager.maxVersion (maximum over the SST tables): only its frame is used by the
+// caller and it is TRUSTED; its functional contract (an upper bound of every table's
+// max version, nested loop invariants) was written but the outer invariant step got no
+// solver answer within the limit, so it is neither claimed nor assumed.
+//@ func (*levelManager).maxVersion
+//@   trusted
+//@   tag ghost-pure
+//@   modifies nothing
+
+//@ func (*LSM).MaxVersion
+//@   property C12
+//@   ensures [covers-active-memtable] lsm != nil && lsm.memTable != nil ==> result >= lsm.memTable.maxVersion
+//@   ensures [covers-immutables] lsm != nil ==> (forall i int :: 0 <= i && i < len(lsm.immutables) && lsm.immutables[i] != nil ==> result >= lsm.immutables[i].maxVersion)
+//@   loop 1 invariant [seen-immutables] lsm != nil && (lsm.memTable != nil ==> max >= lsm.memTable.maxVersion) && (forall i int :: 0 <= i && i <= rangeindex && i < len(lsm.immutables) && lsm.immutables[i] != nil ==> max >= lsm.immutables[i].maxVersion)
